@@ -412,15 +412,9 @@ pub fn random_case(rng: &mut Rng, max_ops: usize) -> Case {
             // same bucket region, different leaf: vary only the path
             r.path = rng.pick(&path_pool()).clone();
             let names = r.path.marker_names();
-            for m in ["n", "w", "any", "up"] {
-                if names.contains(&m.to_string()) && !r.markers.iter().any(|k| k.name == m) {
-                    let regex = match m {
-                        "n" => "[0-9]+",
-                        "w" => "([\\p{Ll}]|\\-)+?",
-                        "any" => ".+?",
-                        _ => "([A-Z]+?)",
-                    };
-                    r.markers.push(MarkerSpec { name: m.into(), regex: regex.into(), transformers: vec![] });
+            for m in crate::world::marker_pool() {
+                if names.contains(&m.name) && !r.markers.iter().any(|k| k.name == m.name) {
+                    r.markers.push(m);
                 }
             }
         }
